@@ -394,14 +394,28 @@ def run_variant(ctx, v, model, streams, label):
     for st in streams:
         for segs in segmentations(rng, st):
             jobs.append((st, segs))
+    _, out_m, _ = vlib.run_lines_sharded(model, ["C %d %d %s" % (v["flags"], MAXF, hx(st)) for st in streams])
+    pred = dict(zip(streams, out_m))
     s.start()
     try:
         with ThreadPoolExecutor(8) as ex:
             obs = list(ex.map(lambda j: talk(s.port, j[1]), jobs))
+        # a reader that gives up after 0.35 s of silence can miss a response that a busy machine delivers late (each CGI request forks a shell):
+        # every connection whose observation is not what the model and the other segmentations say is repeated once, alone and patiently
+        first = {}
+        for (st, segs), o in zip(jobs, obs): first.setdefault(st, o)
+        for k, ((st, segs), (data, closed)) in enumerate(zip(jobs, obs)):
+            if v["streaming"] and chunked_to_cgi(st): continue          # (known finding: differs by arrival anyway)
+            resp = parse_responses(data, closed)
+            odd = monitor(st, resp, closed, strict=v["strict"]) or compare(pred[st], resp, closed) or (parse_responses(*first[st]), first[st][1]) != (resp, closed)
+            if odd: obs[k] = talk(s.port, segs, gap=0.02, idle=2.5)
+        for st in set(j[0] for j in jobs):
+            ks = [k for k, j in enumerate(jobs) if j[0] == st]
+            if v["streaming"] and chunked_to_cgi(st): continue
+            if len(set((tuple(parse_responses(*obs[k])), obs[k][1]) for k in ks)) > 1:
+                for k in ks: obs[k] = talk(s.port, jobs[k][1], gap=0.02, idle=2.5)
     finally:
         rc = s.stop()
-    _, out_m, _ = vlib.run_lines_sharded(model, ["C %d %d %s" % (v["flags"], MAXF, hx(st)) for st in streams])
-    pred = dict(zip(streams, out_m))
     stats = dict(streams=len(streams), connections=len(jobs), responses=0, disagreements=0, violations=0, segmentation_differences=0, kinds={})
     found = False; nrep = 0; ndis = 0
     byseg = {}
